@@ -721,6 +721,13 @@ def vendor_cases():
     out.append({"vendor": "mssql-top", "cls": "MSSQLQuery"})
     out.append({"vendor": "clickhouse-extras", "cls": "ClickHouseQuery"})
     out.append({"vendor": "sqlite-bool", "cls": "SQLLiteQuery"})
+    # builders outside the statement model: DROP / CREATE INDEX / ClickHouse helper functions / LOAD / COPY
+    for c in CLS_NAMES:
+        out.append({"vendor": "drop", "cls": c})
+        out.append({"vendor": "create-index", "cls": c})
+        out.append({"vendor": "clickhouse-functions", "cls": c})
+    out.append({"vendor": "mysql-load", "cls": "MySQLQuery"})
+    out.append({"vendor": "vertica-copy", "cls": "VerticaQuery"})
     return out
 
 
@@ -735,8 +742,8 @@ def run_vendor(case):
         meta[name] = (role, kind, inner or case["cls"], inner or case["cls"])
         return name
     t = Table(reg("zt1", "ident"))
-    u = Table(reg("zt2", "ident"))
     if v == "forms":
+        u = Table(reg("zt2", "ident"))
         I = qclass(case["inner"])
         iv = Interval(days=1)
         sub = I.from_(u).select(iv, Array(Field(reg("zc3", "ident", "select-sub", case["inner"])), reg("zs4", "string", "select-sub", case["inner"])))
@@ -759,6 +766,24 @@ def run_vendor(case):
     elif v == "clickhouse-extras":
         q = Q.from_(t).select(t.field(reg("zc3", "ident")).as_(reg("za6", "alias"))).final().sample(10) \
             .limit_by(2, t.field(reg("zc4", "ident")), reg("zc5", "ident"))
+    elif v == "drop":
+        texts = [str(Q.drop_table(t)), str(Q.drop_database(reg("zt3", "ident"))), str(Q.drop_user(reg("zt4", "ident"))),
+                 str(Q.drop_view(reg("zt5", "ident"))), str(Q.drop_index(reg("zt6", "ident")))]
+        return {"text": " ; ".join(texts), "meta": meta}
+    elif v == "create-index":
+        q = Q.create_index(reg("zt3", "ident")).on(t).columns(reg("zc4", "ident"), t.field(reg("zc5", "ident")))
+    elif v == "clickhouse-functions":
+        from pypika.clickhouse.array import HasAny
+        from pypika.clickhouse.type_conversion import ToFixedString
+        from pypika.clickhouse.search_string import Match
+        q = Q.from_(t).select(ToFixedString(t.field(reg("zc3", "ident")), 10), HasAny(t.field(reg("zc4", "ident")), t.field(reg("zc5", "ident"))),
+                              Match(t.field(reg("zc6", "ident")), reg("zs7", "string")))
+    elif v == "mysql-load":
+        del meta["zt1"]
+        q = Q.load("f.csv").into(Table(reg("zt3", "ident"), schema=reg("zh4", "ident")))
+    elif v == "vertica-copy":
+        del meta["zt1"]
+        q = Q.from_file("f.csv").copy_(Table(reg("zt3", "ident"), schema=reg("zh4", "ident")))
     elif v == "sqlite-bool":
         q = Q.from_(t).select(True, t.field(reg("zc3", "ident")) == False).where(t.field(reg("zc4", "ident")) == True)   # noqa: E712
         q2 = Q.into(t).insert(True, False)
@@ -775,7 +800,12 @@ def vendor_oracle(case, outcome):
     meta = {k: tuple(x) for k, x in outcome["meta"].items()}
     out = sentinel_report(text, meta, class_conv(cls), cls)
     for x in out:
-        x["signature"] = x["signature"][:3] + ["vendor:" + v, x["signature"][4]]
+        x["signature"] = ["C07", cls, case.get("inner", cls), "vendor:" + v, x["signature"][4]]
+    seen_names = {val for kind, val, _ in lex(" ; ".join([text] + list(outcome.get("extra", [])))) if kind in ("q", "word")}
+    for name in meta:
+        if name not in seen_names:
+            out.append({"signature": ["C07", cls, cls, "vendor:" + v, "not-a-separate-identifier"],
+                        "what": "%s does not occur as an identifier / literal of its own (quoted together with its qualifier?): %s" % (name, text)})
     if v == "forms":
         inner = case["inner"]
         forms = set(re.findall(r"INTERVAL '(\d+)( [A-Z]+)?'( [A-Z]+)?", text))
@@ -1066,6 +1096,23 @@ def predicted_findings():
                     "explicit secondary_quote_char / alias_quote_char / as_keyword are lost below a function call (Function.get_sql forwards "
                     "only quote_char, dialect, with_namespace)",
                     "Query.from_(t).select(Coalesce(t.a,'x'),'y').get_sql(quote_char='`', secondary_quote_char='\"') -> SELECT COALESCE(`a`,'x'),\"y\" FROM `t`")
+    for o in CLS_NAMES:
+        if conv[o]["q"] != '"':
+            add(["C07", o, o, "vendor:drop", "ident"],
+                "%s.drop_database / drop_user / drop_view / drop_index use the generic DropQueryBuilder (double quote) while drop_table uses the "
+                "dialect's builder" % o, "MySQLQuery.drop_database('d') -> DROP DATABASE \"d\" ; MySQLQuery.drop_table('t') -> DROP TABLE `t`")
+            add(["C07", o, o, "vendor:clickhouse-functions", "ident"],
+                "ClickHouse helper functions (toFixedString, hasAny, match/toString ...) hard-code the double quote for their field arguments",
+                "MySQLQuery.from_(t).select(ToFixedString(t.a, 10)) -> SELECT toFixedString(\"a\",10) FROM `t`")
+        add(["C07", o, o, "vendor:create-index", "ident"],
+            "CreateIndexBuilder renders the index name and the columns bare and the table through str(table) (always the double quote), "
+            "whatever the query class", "MySQLQuery.create_index('ix').on(t).columns('a') -> CREATE INDEX ix ON \"t\"(a)")
+    add(["C07", "MySQLQuery", "MySQLQuery", "vendor:mysql-load", "not-a-separate-identifier"],
+        "MySQLLoadQueryBuilder wraps the whole (schema-qualified, unquoted) table text in hard-coded backticks",
+        "MySQLQuery.load('f.csv').into(Table('t', schema='s')) -> ... INTO TABLE `s.t` ...")
+    add(["C07", "VerticaQuery", "VerticaQuery", "vendor:vertica-copy", "not-a-separate-identifier"],
+        "VerticaCopyQueryBuilder wraps the whole (schema-qualified, unquoted) table text in hard-coded double quotes",
+        "VerticaQuery.from_file('f.csv').copy_(Table('t', schema='s')) -> COPY \"s.t\" FROM LOCAL 'f.csv' ...")
     for lab in ("insert", "select+where"):
         add(["C07", "SQLLiteQuery", "SQLLiteQuery", "vendor:sqlite-bool", "boolean-form:" + lab],
             "SQLLiteQuery writes Python booleans as 1/0 in the select list and in UPDATE SET (builder wraps with SQLLiteValueWrapper) but as "
